@@ -302,6 +302,9 @@ class ListObj(HeapObj):
         c.elems_fresh = self.elems_fresh
         c.arr = self.arr
         c.tag = self.tag
+        mo = getattr(self, "member_override", None)
+        if mo is not None:
+            c.member_override = mo            # "bag" lists of a library / contract model: only membership is defined
         return c
 
     def len_term(self):
@@ -387,13 +390,14 @@ class Cursor:
 class SetObj(HeapObj):
     kind = "set"
 
-    def __init__(self, items=None, member=None, fresh=True):
+    def __init__(self, items=None, member=None, fresh=True, nonempty=None):
         self.items = None if items is None else list(items)   # concrete elements
         self.member = member                                   # symbolic: callable(value)->z3 Bool
         self.fresh = fresh
+        self.nonempty = nonempty                               # symbolic sets: z3 Bool "has at least one element"
 
     def clone(self):
-        return SetObj(self.items, self.member, self.fresh)
+        return SetObj(self.items, self.member, self.fresh, self.nonempty)
 
 
 class ClassVal:
